@@ -17,6 +17,7 @@ import Rmk.Impl.Iters
 import Rmk.Impl.Elem
 import Rmk.Impl.ObjTree
 import Rmk.Impl.ClassTree
+import Rmk.Impl.VirtualView
 import Rmk.Impl.UintExtra
 import Rmk.Impl.DeserWork
 import Rmk.Impl.DeserTree
@@ -782,7 +783,21 @@ def runPartial (t : Ty) (v : Val) (positions : List Nat) (ops : List POp) : Stri
 def runVirt (t : Ty) (v : Val) (ops : List POp) : String :=
   match Impl.construct H t v with
   | none => "i.ctor=err"
-  | some n => join ([kv "i.root" (hexOf (n.root H))] ++ runPOps t n ops "ic")
+  | some n =>
+    -- run-time re-check of `VirtualViewLaws.virtual_view_reads` on this very tree: the view reads mirrored over a WHOLLY
+    -- VIRTUAL backing served by the dictionary of `n` equal the reads on `n` (complete read, length, the first elements)
+    let src := Virtual.srcOfDict (Virtual.dictOf H n)
+    let m := Virtual.MNode.virt (n.root H)
+    let same {α} [BEq α] (a b : Option α) : Bool := match a, b with
+      | none, none => true | some x, some y => x == y | _, _ => false
+    let vok : String :=
+      if decide (Virtual.Serves H src n) then
+        b01 (same ((Virtual.readValM H src t m).map valStr) ((Impl.readVal H t n).map valStr) &&
+          same (Virtual.viewLenM H src t m) (Impl.viewLen H t n) &&
+          (List.range 6).all fun i =>
+            same ((Virtual.readElemM H src t m i).map valStr) ((Impl.readElem H t n i).map valStr))
+      else "-"
+    join ([kv "i.root" (hexOf (n.root H)), kv "iv.ok" vok] ++ runPOps t n ops "ic")
 
 /-- `(cls (bases <cls>*) (name idx)*)`: a container class with its bases and its own annotations (types by table index) -/
 partial def toCls : Sexp → Option (Impl.Cls Nat)
